@@ -11,13 +11,13 @@ From Coq Require Import Permutation.
 Local Open Scope Q_scope.
 
 Theorem account_balance_is_sum : forall ord acct c ps acc b,
-  account_balance ord acct ps acc = Ok b -> bden b c == bden acc c + acct_sum ps acct c.
+  account_balance ord acct ps acc = Ok b -> den b c == den acc c + acct_sum ps acct c.
 Proof. exact account_balance_exact. Qed.
 Print Assumptions account_balance_is_sum.
 
 Theorem account_balance_hash_order_free : forall acct c ps b b',
-  account_balance false acct ps [] = Ok b -> account_balance true acct ps [] = Ok b' ->
-  bden b c == bden b' c.
+  account_balance false acct ps VVoid = Ok b -> account_balance true acct ps VVoid = Ok b' ->
+  den b c == den b' c.
 Proof. exact account_balance_order_free. Qed.
 Print Assumptions account_balance_hash_order_free.
 
